@@ -606,3 +606,88 @@ def r_lbfgs(A, ctx, scope, rule="R-LBFGS"):
            what="returned stopping value is not the inf-norm of the final jacobian",
            loc=loc(f, rets[-1]) if rets else None)
     ctx.floor(rule, n, 5)
+
+
+# ---------------------------------------------------------------- R-GRADPOINT
+def r_gradpoint(A, ctx, scope, rule="R-GRADPOINT"):
+    ctx.rule(rule, "the certificate is taken at the returned point: the gradient handed to the score behind the outer "
+             "tolerance test (`penalty.subdiff_distance(w, grad, ...)`, or the fixed-point residual built from "
+             "`w` and `grad`) was computed at that same `w` - the points its defining expression is evaluated at "
+             "(`X @ v`, coefficient arguments of gradient builders) include `w`, and `w` is not rebound between "
+             "the gradient and the score; a gradient taken at an auxiliary point (the extrapolated sequence of "
+             "an accelerated method) certifies another point than the one returned")
+    n = 0
+    for name, sf in sorted(A.facts.items()):
+        if name in scope.get("exempt", ()) or sf.loop is None or not sf.tol_exits:
+            continue
+        f, cfg, flow = sf.f, sf.cfg, A.flow
+        rd = cfg.reaching_defs()
+        wroles = {nm for nm, r in flow.env.get(f, {}).items() if set(r) & {"W", "W0"}}
+        for test_id, brk_id, cmp in sf.tol_exits:
+            stop = sf.stop_name_in(cmp)
+            if stop is None:
+                continue
+            for d in sorted(cfg.backward_slice(test_id, [stop])):
+                a = cfg.nodes[d].ast
+                if not isinstance(a, ast.Assign):
+                    continue
+                score = None
+                for c in ast.walk(a.value):
+                    if isinstance(c, ast.Call) and isinstance(c.func, ast.Attribute) and c.func.attr == "subdiff_distance" \
+                            and len(c.args) >= 2 and isinstance(c.args[1], ast.Name):
+                        w0 = c.args[0]
+                        while isinstance(w0, ast.Subscript):
+                            w0 = w0.value
+                        if isinstance(w0, ast.Name):
+                            score = (w0.id, c.args[1].id, c)
+                if score is None:
+                    # fixed-point residual written inline: |w - prox(w - grad / L, ...)|
+                    names = names_in(a.value)
+                    ws_ = [x for x in names if x in wroles]
+                    gs_ = [x for x in names if x in _grad_like(sf, flow)]
+                    if ws_ and gs_ and "prox" in ast.unparse(a.value):
+                        score = (ws_[0], gs_[0], a.value)
+                if score is None:
+                    continue
+                wname, gname, site = score
+                # the iterate may be the caller's start array under another name (`w = zeros if w_init is None
+                # else w_init`): a gradient initialised from that name is a gradient at the iterate
+                same = {wname}
+                for st in ast.walk(f.node):
+                    if isinstance(st, ast.Assign) and len(st.targets) == 1 and isinstance(st.targets[0], ast.Name) \
+                            and st.targets[0].id == wname:
+                        v = st.value
+                        for br in ([v.body, v.orelse] if isinstance(v, ast.IfExp) else [v]):
+                            if isinstance(br, ast.Name):
+                                same.add(br.id)
+                for gd in sorted(x for x in rd.get(d, {}).get(gname, ()) if x >= 0):
+                    ga = cfg.nodes[gd].ast
+                    if not isinstance(ga, ast.Assign):
+                        continue
+                    pts = set()
+                    for x in ast.walk(ga.value):
+                        if isinstance(x, ast.BinOp) and isinstance(x.op, ast.MatMult):
+                            r_ = x.right
+                            while isinstance(r_, ast.Subscript):
+                                r_ = r_.value
+                            if isinstance(r_, ast.Name):
+                                pts.add(r_.id)
+                        if isinstance(x, ast.Call):
+                            for arg in x.args:
+                                b = arg
+                                while isinstance(b, ast.Subscript):
+                                    b = b.value
+                                if isinstance(b, ast.Name) and (b.id in wroles or b.id == wname):
+                                    pts.add(b.id)
+                    n += 1
+                    bad = None
+                    if pts and not (pts & same):
+                        bad = (f"`{norm_src(ga)[:70]}` evaluates the gradient at `{'`, `'.join(sorted(pts))}`, the score "
+                               f"`{norm_src(site)[:60]}` is taken at `{wname}`")
+                    elif wname in pts and set(rd.get(gd, {}).get(wname, ())) != set(rd.get(d, {}).get(wname, ())):
+                        bad = (f"`{wname}` is rebound between `{norm_src(ga)[:50]}` and the score `{norm_src(site)[:50]}`")
+                    ctx.ob(rule, f"{f.fq}::{norm_src(ga)[:60]}", bad is None,
+                           what=f"{sf.f.qualname}: {bad}: the stopping value returned on a tolerance exit is not the "
+                                "optimality violation of the returned coefficients (it can be below the tolerance "
+                                "while the true violation is not)", loc=loc(f, ga))
+    ctx.floor(rule, n, scope.get("floor", 5))
